@@ -86,7 +86,19 @@ def gen_case(rng, cid):
                                        f'(whenever {name} INDEX) (whenever {body} INDEX) INDEX)'])
         probes.append(('scan', len(cmds) - 1, name, cur[0]))
 
+    # a signal that is defined again with another body: from then on it behaves like the new body, whatever was read before
+    rbody1 = fr.expr(2)
+    cmds.append(['evalstr', '111', f'(defsig vr {rbody1})'])
+    defs.append(('vr', rbody1))
     visit(n - 1)
+    if rng.random() < 0.6:
+        rbody2 = '(+ 1 %s)' % fr.expr(1)
+        cmds.append(['evalstr', '111', f'(defsig vr {rbody2})'])
+        defs[:] = [d for d in defs if d[0] != 'vr'] + [('vr', rbody2)]
+        for j in range(n):
+            goto(j)
+            cmds.append(['evalstr', '111', f'(list vr {rbody2})'])
+            probes.append(('pairs', len(cmds) - 1, ['vr after its redefinition'], cur[0]))
     # resample (sometimes) and visit again: cached values must not be served for other time points
     if n > 2:
         L = sorted(rng.sample(range(n), rng.randrange(2, n)))
